@@ -21,6 +21,9 @@ PROPS["C02"] = dict(
         "Zrnt.Proofs.C02.justification_eq",
         "Zrnt.Proofs.C02.registry_batched_eq_sequential",
         "Zrnt.Proofs.C02.registry_scan_unfixed_witness",
+        "Zrnt.Proofs.C02.activation_prefix_eq",
+        "Zrnt.Proofs.C02.activations_eq",
+        "Zrnt.Proofs.C02.deneb_activation_limit_eq",
     ],
     modes=[dict(name="c02", nontrivial=_nontrivial)],
     level="proof",
